@@ -381,6 +381,9 @@ def check_dict(ctx, model, style, loaded, obj, seed):
                 v = getattr(o, f.name)
                 dv = d.get(key)
                 if f.wrapper and isinstance(dv, dict):
+                    if not located:
+                        nodes.append(dv)  # the wrapper object is part of its parent: an undeclared key in it is as unknown as beside it
+                        ctx.feature("fault:unknown-key-inside-wrapper-object")
                     dv = next(iter(dv.values()), None)
                 if isinstance(v, (list, tuple)) and isinstance(dv, (list, tuple)):
                     for x, y in zip(dv, v):
